@@ -1,9 +1,19 @@
 #!/usr/bin/env python3
-"""Regenerate MANIFEST.json from tools/manifest_checks.json (claimed checks) and properties.jsonl."""
+"""Regenerate MANIFEST.json from tools/manifest/Cxx.json (claimed checks) and properties.jsonl,
+and known_findings.json from tools/findings/Cxx.json."""
 import json, os
 V = os.path.dirname(os.path.dirname(os.path.abspath(__file__)))
 props = [json.loads(l) for l in open(os.path.join(V, "properties.jsonl"))]
-claimed = json.load(open(os.path.join(V, "tools", "manifest_checks.json")))
+claimed = {}
+for f in sorted(os.listdir(os.path.join(V, "tools", "manifest"))):
+    if f.endswith(".json"):
+        claimed[f[:-5]] = json.load(open(os.path.join(V, "tools", "manifest", f)))
+# known_findings.json = concatenation of tools/findings/*.json (one list per property)
+kf = []
+for f in sorted(os.listdir(os.path.join(V, "tools", "findings"))):
+    if f.endswith(".json"):
+        kf.extend(json.load(open(os.path.join(V, "tools", "findings", f))))
+json.dump(kf, open(os.path.join(V, "known_findings.json"), "w"), indent=1)
 hooks = json.load(open(os.path.join(V, "tools", "manifest_hooks.json")))
 checks, na = [], []
 for p in props:
